@@ -22,9 +22,12 @@ func init() {
 
 func runC18(p *eng.Prog, r *eng.Report, tier string) {
 	c := &cx{p, r, tier}
+	// C18.26 (= C14.7): a mediated invitation arrives as a message: the type a handler is looked up by is the one the type's own decoder yields (unknown values are normal)
+	typedAttrsThroughOwnDecoder(c, "C18.26")
 	// C18.23 (= C09.17 / C10.10): no cycle in the lock-order graph: a deadlock between a
 	// writer and Close, or between the serve loop and a requester, ends every guarantee of this property
 	lockOrder(c, "C18.23")
+	c.r.Floor("C18.25", "blocking channel operations in muc", lockHeldAcrossChannelOp(c, "C18.25", "muc."), 3)
 	// C18.24 (= C06.30): a pending join taken out of Channel.join is completed, found cancelled or put back
 	c.r.Floor("C18.24", "hand-off records received in muc", receivedCloserNotDropped(c, "C18.24", func(f *eng.Fn) bool { return strings.HasPrefix(f.Short, "muc.") }), 2)
 	// ---- C18.9 the role/affiliation vocabularies are decoded completely (a
